@@ -199,20 +199,27 @@ class Charge:
         charge_pos_ver = self.get_frame_values(quantity="position_ver")
         charge_pos_hor = self.get_frame_values(quantity="position_hor")
 
-        pixel_index_ver = np.floor_divide(
-            charge_pos_ver, self._geo.pixel_vert_size
-        ).astype(int)
-        pixel_index_hor = np.floor_divide(
-            charge_pos_hor, self._geo.pixel_horz_size
-        ).astype(int)
+        pixel_index_ver = np.floor_divide(charge_pos_ver, self._geo.pixel_vert_size)
+        pixel_index_hor = np.floor_divide(charge_pos_hor, self._geo.pixel_horz_size)
+
+        # Only charges located inside the sensitive area are collected. 'df_to_array'
+        # does not check its indices: a negative index would wrap around to the last
+        # row/column and an index beyond the last row/column would be written
+        # in another pixel or outside of 'array'.
+        is_inside = (
+            (pixel_index_ver >= 0)
+            & (pixel_index_ver < self._geo.row)
+            & (pixel_index_hor >= 0)
+            & (pixel_index_hor < self._geo.col)
+        )
 
         # Changing = to += since charge dataframe is reset, the pixel array need to be
         # incremented, we can't do the whole operation on each iteration
         return df_to_array(
             array=array,
-            charge_per_pixel=charge_per_pixel,
-            pixel_index_ver=pixel_index_ver,
-            pixel_index_hor=pixel_index_hor,
+            charge_per_pixel=charge_per_pixel[is_inside],
+            pixel_index_ver=pixel_index_ver[is_inside].astype(int),
+            pixel_index_hor=pixel_index_hor[is_inside].astype(int),
         )
 
     @staticmethod
